@@ -18,7 +18,7 @@
 From Coq Require Import String NArith List Bool.
 From Typify Require Import Base.Json IR.TypeIR Algo.Heck Algo.HasImpl Algo.RustStatic Proofs.RustStaticProofs.
 From Typify Require Algo.Sanitize Algo.Cycles Algo.Defaults Algo.Value Algo.Emit Algo.Space Algo.SettingsModel.
-From Typify Require Proofs.SanitizeProofs Proofs.CyclesProofs Proofs.CyclesSpecProofs Proofs.SpaceProofs.
+From Typify Require Proofs.EmitProofs Proofs.SanitizeProofs Proofs.CyclesProofs Proofs.CyclesSpecProofs Proofs.SpaceProofs.
 From Typify Require Props.C06 Props.C07 Props.C08 Props.C16 Props.C19.
 Import ListNotations.
 Open Scope N_scope.
@@ -231,8 +231,10 @@ Theorem C01_skip_path_map_coherent : forall T p k v ty,
   skip_path_prop_ok T p = true.
 Proof. exact skip_path_map_coherent. Qed.
 
-(* from C19: every derive typify adds by itself is satisfiable for that entry *)
+(* from C19: every derive typify adds by itself is satisfiable for that entry, outside C19's class of aggregates std /
+   serde do not cover (arrays > 32, tuples > 12: finding C01-5, decided here by [derive_bounds_ok]) *)
 Theorem C01_derive_bounds : forall T i e x fuel,
+  ~ EmitProofs.Known_unsupported_aggregate T e ->
   get T i = Some e -> In x (Emit.builtin_derives T e) -> Emit.derivable x T (S fuel) i = true.
 Proof. exact C19.C19_builtin_derives_derivable. Qed.
 
